@@ -1261,6 +1261,15 @@ class TexArgs(list):
         self.all = []
         self.extend(args)
 
+    def __index_in_all(self, item, items=None):
+        """Position of this very object in the proxy `.all` (arguments with
+        equal text are different arguments)."""
+        items = self.all if items is None else items
+        for j, candidate in enumerate(items):
+            if candidate is item:
+                return j
+        return items.index(item)
+
     def __coerce(self, arg):
         if isinstance(arg, str) and not arg.isspace():
             arg = TexGroup.parse(arg)
@@ -1340,7 +1349,7 @@ class TexArgs(list):
                 i = len(self) - 1
 
             before = self[i - 1]
-            index_before = self.all.index(before)
+            index_before = self.__index_in_all(before)
             self.all.insert(index_before + 1, arg)
 
     def remove(self, item):
@@ -1371,9 +1380,9 @@ class TexArgs(list):
         >>> len(arguments)
         0
         """
-        item = self.__coerce(item)
-        self.all.remove(item)
-        super().remove(item)
+        item = self[self.index(self.__coerce(item))]
+        self.all.pop(self.__index_in_all(item))
+        super().pop(self.__index_in_all(item, self))
 
     def pop(self, i=-1):
         """Pop argument object at provided index.
@@ -1389,8 +1398,7 @@ class TexArgs(list):
         BraceGroup('arg0')
         """
         item = super().pop(i)
-        j = self.all.index(item)
-        return self.all.pop(j)
+        return self.all.pop(self.__index_in_all(item))
 
     def reverse(self):
         r"""Reverse both the list and the proxy `.all`.
